@@ -336,14 +336,16 @@ theorem bad_prefix (g : Group) (fc : Char → Char) (text : Str) (h : namespaceO
   simp [lookup_none g _ h, codeOf]
 
 /-- a non-empty namespace whose body is not alphabetic is flagged by the character check -/
-theorem bad_prefix_nonalpha (ns : Str) (hne : ns ≠ []) (h : alphaPrefix ns = false) : prefixIssue ns = true := by
+theorem bad_prefix_nonalpha (alpha : Char → Bool) (ns : Str) (hne : ns ≠ []) (h : alphaPrefix alpha ns = false) :
+    prefixIssue alpha ns = true := by
   unfold prefixIssue
   cases ns with
   | nil => exact absurd rfl hne
   | cons c cs => simp [h]
 
 /-- … and can never be a member prefix: `set_schema_prefix` only installs alphabetic ones -/
-theorem member_prefix_alpha (q p : Str) (h : setPrefix q = .ok p) (hne : p ≠ []) : alphaPrefix p = true := by
+theorem member_prefix_alpha (alpha : Char → Bool) (q p : Str) (h : setPrefix alpha q = .ok p) (hne : p ≠ []) :
+    alphaPrefix alpha p = true := by
   simp only [setPrefix] at h
   generalize (if (!q.isEmpty && q.getLast? != some ':') = true then q ++ [':'] else q) = q' at h
   split at h
@@ -355,8 +357,19 @@ theorem member_prefix_alpha (q p : Str) (h : setPrefix q = .ok p) (hne : p ≠ [
     | nil => exact absurd rfl hne
     | cons c cs => simpa using hc
 
-theorem set_prefix_refuses (q : Str) (hne : q ≠ []) (hc : q.getLast? = some ':') (h : alphaPrefix q = false) :
-    setPrefix q = .error .invalidLibraryPrefix := by
+/-- **A prefix that loads is never flagged on a tag**: load side and tag side apply the same alphabetic test
+(whatever `str.isalpha` says about each character — ASCII, Latin-1, Cyrillic, …). -/
+theorem loaded_prefix_no_issue (alpha : Char → Bool) (q p : Str) (h : setPrefix alpha q = .ok p) :
+    prefixIssue alpha p = false := by
+  cases p with
+  | nil => rfl
+  | cons c cs =>
+    have := member_prefix_alpha alpha q (c :: cs) h (by simp)
+    simp [prefixIssue, this]
+
+theorem set_prefix_refuses (alpha : Char → Bool) (q : Str) (hne : q ≠ []) (hc : q.getLast? = some ':')
+    (h : alphaPrefix alpha q = false) :
+    setPrefix alpha q = .error .invalidLibraryPrefix := by
   unfold setPrefix
   cases q with
   | nil => exact absurd rfl hne
@@ -751,7 +764,8 @@ example :
     Group.find g id ['S'] = .res (.found 1 []) ∧
     Group.find g id ['s', ':', 'S'] = .res (.noValidTag 1) ∧
     Group.find g id ['z', ':', 'S'] = .unmatched ['z', ':'] ∧
-    prefixIssue ['s', '1', ':'] = true ∧ prefixIssue ['s', ':'] = false ∧ prefixIssue [':'] = true := by
+    prefixIssue Char.isAlpha ['s', '1', ':'] = true ∧ prefixIssue Char.isAlpha ['s', ':'] = false ∧
+    prefixIssue Char.isAlpha [':'] = true := by
   decide
 
 /-- merge: a rooted library tag goes under its root, an unrooted one to the top level; a clash is refused -/
@@ -921,6 +935,26 @@ theorem unloaded_prefix_invalid (g : VGroup) (t : RTag) (h : member g t.ns = non
     decide
   · show decide (Kind.sev .libraryUnmatched < Generated.CodeMap.sevWarning) = true
     decide
+
+/-- the string validator's tag-side prefix check (C01's model) is `Group.prefixIssue` with `str.isalpha` as the
+character data of the environment says -/
+theorem tag_prefix_check (env : Env) (ph : Bool) (t : RTag) :
+    ∃ rest, tagCharIssues env ph t =
+      (if prefixIssue (Validate.isAlpha env.cd) t.ns then [tagIssue .nsPrefixInvalid t] else []) ++ rest :=
+  ⟨_, rfl⟩
+
+/-- … so a tag carrying a prefix that `set_schema_prefix` accepted gets no namespace-syntax issue -/
+theorem loaded_prefix_tag_clean (env : Env) (ph : Bool) (t : RTag) (q : Str)
+    (h : setPrefix (Validate.isAlpha env.cd) q = .ok t.ns) :
+    ∀ i ∈ tagCharIssues env ph t, i.kind ≠ .nsPrefixInvalid ∨ i ∈
+      invalidCharsFrom env.cd (if ph then Generated.CodeMap.tagAllowedChars ++ ['#'] else Generated.CodeMap.tagAllowedChars)
+        t none 0 (orgBase t) := by
+  intro i hi
+  have hp := loaded_prefix_no_issue _ q t.ns h
+  simp only [prefixIssue, alphaPrefix] at hp
+  simp only [tagCharIssues, hp] at hi
+  right
+  simpa using hi
 
 /-- mixed annotations at the lookup level: the lookup issues are the per-tag union -/
 theorem lookup_issues_per_tag (g : VGroup) (ts us : List RTag) :
